@@ -93,6 +93,9 @@ def gen_strings(tier):
             f"{a} or {b} and {c}", f"{a} and {b} or {c}", f"{a} or {b} or {c}", f"{a} and {b} and {c}",
             ]
     out += LITERALS
+    # parenthesised operands that are "zero-like" trees or literals
+    for z in ["0", "0.0", "False", f"0 * {a}", f"0 // {b}", f"0 % {b}", f"{a} * 0", "1", f"0 / {b}"]:
+        out += [f"({z})", f"{a} + ({z})", f"({z}) * {b}", f"f(({z}))", f"{a} - ({z}) - {c}", f"v[({z})]", f"(({z}))", f"({z}),"]
     # trailing commas in every bracket kind
     out += [f"v[{a},]", f"m[{a}, {b},]", f"f({a}, {b},)", f"({a}, {b},)", f"f({a}, k={b},)", f"v[({a},)]", f"m[({a}, {b},)]"]
     for nm in KEYWORDISH:
